@@ -1,6 +1,8 @@
 """C19 - no silent wrap at the 64-bit machine boundary in arithmetic or in storing."""
 from . import widths, carriers, funcs, routes
 
+from . import routes, fresh, flags, sizes, conv, dtype, carriers, funcs, ops, strings, pipeline, widths
+
 EXPLANATION = (
     "Carrier/width typing (the rule is the property): with the storage invariant 'o.val is a Python-int object array iff o.n_word >= 64, else int64/uint64' (decided by C18.R1 on "
     "set_val, wrap and every kernel guard) each arithmetic node of _add_raw/_sub_raw/_mul_raw gets an exact bit width (bits(o.val)=n_word, bits(e*2^k)=bits+k, bits(e1*e2)=sum) under the "
@@ -18,7 +20,7 @@ def run(ck):
     widths.scaling_guard(ck, "C19.R3")
     routes.carrier_types(ck, "C19.R4")
     carriers.threshold_everywhere(ck, "C18.R1")
-    from . import flags, pipeline
     pipeline.overflow_dispatch(ck, "C02.R6", "C03.R2", flags.handler_roles_quiet(ck.prog))   # what leaves the kernels is clamped element by element on Python numbers
     res = funcs.kernel_typing(ck, "C07.R3", only=("add", "sub", "mul"))
     funcs.single_quantization(ck, "C08.R2", res)
+    carriers.machine_carrier(ck, "C19.R5")
